@@ -46,8 +46,8 @@ Proof.
   intros u. unfold uuid_ok. rewrite andb_true_iff, Z.leb_le, Z.ltb_lt. reflexivity.
 Qed.
 
-Global Arguments bytes_of_uuid : simpl never.
-Global Arguments uuid_of_bytes : simpl never.
+Local Arguments bytes_of_uuid : simpl never.
+Local Arguments uuid_of_bytes : simpl never.
 
 (* ------------------------------------------------------------------ *)
 (* Header                                                              *)
@@ -192,8 +192,8 @@ Qed.
 Lemma check_enum_ok nm v : enum_ok nm v = true -> check_enum nm v = Ok tt.
 Proof. intros H. unfold check_enum. rewrite H. reflexivity. Qed.
 
-Global Arguments check_enum : simpl never.
-Global Arguments enum_ok : simpl never.
+Local Arguments check_enum : simpl never.
+Local Arguments enum_ok : simpl never.
 
 (* ------------------------------------------------------------------ *)
 (* Tables                                                              *)
@@ -259,8 +259,8 @@ Qed.
 Lemma fresh_ok t u k : ~ In u (dom t) -> fresh t u k = Ok tt.
 Proof. intros H. unfold fresh. rewrite (tlookup_none t u H). reflexivity. Qed.
 
-Global Arguments tlookup : simpl never.
-Global Arguments fresh : simpl never.
+Local Arguments tlookup : simpl never.
+Local Arguments fresh : simpl never.
 
 (* every uuid of l is in the table with an admissible kind *)
 Definition covers (l : list Z) (ok : nkind -> bool) (t : table) : Prop :=
@@ -293,7 +293,7 @@ Proof.
   rewrite (tlookup_in t u k (proj1 Ht) Hk), Ho. reflexivity.
 Qed.
 
-Global Arguments resolve : simpl never.
+Local Arguments resolve : simpl never.
 
 (* the table entries of a list of subtrees, in table order (latest first) *)
 Fixpoint Es {X} (E : X -> table) (xs : list X) : table :=
@@ -358,10 +358,10 @@ Proof.
   rewrite (map_res_Es f g (fun z => z) E zs t Ht H). rewrite map_id. reflexivity.
 Qed.
 
-Global Arguments map_res : simpl never.
-Global Arguments map_res0 : simpl never.
-Global Arguments iter_res : simpl never.
-Global Arguments dedup_z : simpl never.
+Local Arguments map_res : simpl never.
+Local Arguments map_res0 : simpl never.
+Local Arguments iter_res : simpl never.
+Local Arguments dedup_z : simpl never.
 
 (* ------------------------------------------------------------------ *)
 (* Blocks, byte intervals, sections                                    *)
@@ -437,9 +437,9 @@ Proof.
   - intros x Hx. apply check_enum_ok. rewrite forallb_forall in Hfl. apply (Hfl x Hx).
 Qed.
 
-Global Arguments decode_block : simpl never.
-Global Arguments decode_bi : simpl never.
-Global Arguments decode_section : simpl never.
+Local Arguments decode_block : simpl never.
+Local Arguments decode_bi : simpl never.
+Local Arguments decode_section : simpl never.
 
 (* ------------------------------------------------------------------ *)
 (* Proxies, symbols, symbolic expressions                              *)
@@ -527,11 +527,11 @@ Proof.
     + rewrite forallb_forall in Hbis. apply (Hbis b Hb).
 Qed.
 
-Global Arguments decode_proxy : simpl never.
-Global Arguments decode_symbol : simpl never.
-Global Arguments decode_expr : simpl never.
-Global Arguments finish_bi : simpl never.
-Global Arguments finish_section : simpl never.
+Local Arguments decode_proxy : simpl never.
+Local Arguments decode_symbol : simpl never.
+Local Arguments decode_expr : simpl never.
+Local Arguments finish_bi : simpl never.
+Local Arguments finish_section : simpl never.
 
 (* ------------------------------------------------------------------ *)
 (* What the entries of a module cover                                  *)
@@ -678,7 +678,7 @@ Proof.
   cbn [bind]. rewrite map_id. destruct m; reflexivity.
 Qed.
 
-Global Arguments decode_module : simpl never.
+Local Arguments decode_module : simpl never.
 
 Lemma covers_cfg_mod m : covers (module_cfg_nodes m) is_cfg_kind (E_mod m).
 Proof.
@@ -848,3 +848,70 @@ Theorem resave_same : forall c c', wf c = true -> load (fst (save c)) (snd (save
 Proof.
   intros c c' H Hl. rewrite (file_roundtrip c H) in Hl. inversion Hl. reflexivity.
 Qed.
+
+(* ------------------------------------------------------------------ *)
+(* Non-vacuity: concrete contents                                      *)
+(* ------------------------------------------------------------------ *)
+
+Definition ex_code : cBlock := {| cb_uuid := 10; cb_code := true; cb_off := 0; cb_size := 4; cb_dm := 0 |}.
+Definition ex_data : cBlock := {| cb_uuid := 11; cb_code := false; cb_off := 4; cb_size := 2; cb_dm := 0 |}.
+Definition ex_bi : cBI :=
+  {| ci_uuid := 5; ci_addr := Some 0; ci_size := 8; ci_contents := [1; 2; 3; 255];
+     ci_blocks := [ex_code; ex_data];
+     ci_symx := [(0, {| cx_val := CAddrConst 7 20; cx_attrs := [0; 4] |});
+                 (4, {| cx_val := CAddrAddr 1 0 20 21; cx_attrs := [] |})] |}.
+Definition ex_sec : cSection := {| cs_uuid := 4; cs_name := [46; 116]; cs_flags := [1; 3]; cs_bis := [ex_bi] |}.
+Definition ex_mod1 : cModule :=
+  {| cm_uuid := 2; cm_name := [109]; cm_binary_path := [47]; cm_isa := 3; cm_file_format := 2; cm_byte_order := 2;
+     cm_preferred_addr := 0; cm_rebase_delta := 0; cm_entry := Some 10;
+     cm_proxies := [12]; cm_sections := [ex_sec];
+     cm_symbols := [ {| cy_uuid := 20; cy_name := [102]; cy_payload := CPRef 10; cy_at_end := false |};
+                     {| cy_uuid := 21; cy_name := [103]; cy_payload := CPVal 0; cy_at_end := true |};
+                     {| cy_uuid := 22; cy_name := []; cy_payload := CPNone; cy_at_end := false |} ];
+     cm_aux := [([110], {| a_type := [115]; a_data := [0] |})] |}.
+Definition ex_mod2 : cModule :=
+  {| cm_uuid := 3; cm_name := []; cm_binary_path := []; cm_isa := 0; cm_file_format := 0; cm_byte_order := 0;
+     cm_preferred_addr := 0; cm_rebase_delta := 0; cm_entry := None;
+     cm_proxies := []; 
+     cm_sections := [ {| cs_uuid := 30; cs_name := []; cs_flags := [];
+                         cs_bis := [ {| ci_uuid := 31; ci_addr := None; ci_size := 0; ci_contents := [];
+                                        ci_blocks := [ {| cb_uuid := 2 ^ 128 - 1; cb_code := true; cb_off := 0; cb_size := 0; cb_dm := 1 |} ];
+                                        ci_symx := [] |} ] |} ];
+     (* a symbol of the second module referring to a proxy of the first one *)
+     cm_symbols := [ {| cy_uuid := 32; cy_name := []; cy_payload := CPRef 12; cy_at_end := false |} ];
+     cm_aux := [] |}.
+Definition ex_ir : cIR :=
+  {| cr_uuid := 0; cr_version := py_protobuf_version; cr_modules := [ex_mod1; ex_mod2];
+     cr_edges := [ {| ce_src := 10; ce_dst := 12; ce_label := None |};
+                   {| ce_src := 10; ce_dst := 12; ce_label := Some (0, false, false) |};
+                   {| ce_src := 2 ^ 128 - 1; ce_dst := 10; ce_label := Some (3, true, true) |} ];
+     cr_aux := [] |}.
+
+Example ex_ir_wf : wf ex_ir = true.
+Proof. vm_compute. reflexivity. Qed.
+
+Example ex_ir_roundtrip : from_proto (to_proto ex_ir) = Ok ex_ir.
+Proof. vm_compute. reflexivity. Qed.
+
+Example ex_ir_file_roundtrip : load (fst (save ex_ir)) (snd (save ex_ir)) = Ok ex_ir.
+Proof. vm_compute. reflexivity. Qed.
+
+(* the empty content (no module, no edge) is fine as well *)
+Definition ex_empty : cIR :=
+  {| cr_uuid := 1; cr_version := py_protobuf_version; cr_modules := []; cr_edges := []; cr_aux := [] |}.
+
+Example ex_empty_wf : wf ex_empty = true.
+Proof. vm_compute. reflexivity. Qed.
+
+Example ex_empty_roundtrip : from_proto (to_proto ex_empty) = Ok ex_empty.
+Proof. vm_compute. reflexivity. Qed.
+
+Print Assumptions uuid_roundtrip.
+Print Assumptions bytes_of_uuid_length.
+Print Assumptions bytes_of_uuid_inj.
+Print Assumptions load_save.
+Print Assumptions header_accepted.
+Print Assumptions file_roundtrip.
+Print Assumptions resave_same.
+Print Assumptions ex_ir_wf.
+Print Assumptions ex_ir_roundtrip.
